@@ -5,7 +5,7 @@ from __future__ import annotations
 import ast
 from typing import List, Optional
 
-from ..core import Ctx, assigned_names, dotted, names_in, norm, stmts_local, walk_local
+from ..core import Ctx, Locals, presence_test, assigned_names, dotted, names_in, norm, stmts_local, walk_local
 from ..paths import enumerate_paths, guards_of, stmt_of
 from ..typed import Typed, eyecite_class
 from .c03 import rule_filter
@@ -131,9 +131,10 @@ def rule_name_guards(ctx: Ctx):
                     loop = getattr(loop, "parent", None)
                 guards, cnt = guards_of(enumerate_paths(loop.body), st) if loop is not None else ([], 0)
                 texts = [(norm(c), o) for c, o in guards]
-                W = next((x.target.id for c_, _ in guards for x in ast.walk(c_) if isinstance(x, ast.NamedExpr)), "value")
+                W = next((c_.args[0].id for c_, o_ in guards if o_ and isinstance(c_, ast.Call) and dotted(c_.func) == "is_valid_name" and len(c_.args) == 1
+                          and isinstance(c_.args[0], ast.Name)), "value")
                 valid = any(c == f"is_valid_name({W})" and o for c, o in texts)
-                truthy = any(f"{W} := getattr" in c and o for c, o in texts)
+                truthy = any((f"{W} := getattr" in c and o) or (presence_test(c_, o) == (W, True)) for (c, o), (c_, _) in zip(texts, guards))
                 # the value is escaped before it is interpolated
                 esc = any(isinstance(s, ast.Assign) and norm(s.targets[0]) == W and f"re.escape({W}" in norm(s.value) for s in stmts_local(loop.body)) if loop else False
                 ok = valid and truthy and esc
@@ -168,16 +169,16 @@ def rule_rebasing(ctx: Ctx):
     C = fn.args.args[0].arg
     origin = None
     sl = None
+    L = Locals(fn)
     for s in stmts_local(fn.body):
         if isinstance(s, ast.Assign) and isinstance(s.value, ast.Subscript) and isinstance(s.value.slice, ast.Slice) and s.value.slice.upper is None \
-                and s.value.slice.lower is not None and norm(s.value.slice.lower).startswith(f"{C}.span()"):
-            sl, origin = s, norm(s.value.slice.lower)
-    offv = [norm(s.targets[0]) for s in stmts_local(fn.body) if isinstance(s, ast.Assign) and origin and norm(s.value) == origin and isinstance(s.targets[0], ast.Name)]
-    okp = origin in (f"{C}.span()[-1]", f"{C}.span()[1]") and bool(offv)
+                and s.value.slice.lower is not None and L.text(s.value.slice.lower, s).startswith(f"{C}.span()"):
+            sl, origin = s, L.text(s.value.slice.lower, s)
+    okp = origin in (f"{C}.span()[-1]", f"{C}.span()[1]")
     ctx.ob("R-C19-5", "find.extract_pincited_reference_citations/scans-after-citation", okp,
            f"the text scanned starts at the end of the full citation's span (`{origin}`), so every reference lies after it", node=sl or fn, mod=fm)
-    if offv:
-        O = offv[0]
+    if origin:
+        O = origin
         ctor = [n for n in walk_local(fn) if isinstance(n, ast.Call) and dotted(n.func) in ("ReferenceCitation", "CaseReferenceToken")]
         # the two names unpacked from <match>.span()
         SP = next(([norm(e) for e in s_.targets[0].elts] for s_ in stmts_local(fn.body) if isinstance(s_, ast.Assign) and isinstance(s_.targets[0], ast.Tuple)
@@ -191,7 +192,7 @@ def rule_rebasing(ctx: Ctx):
                 if kw.arg in ("start", "end", "span_start", "span_end", "full_span_start", "full_span_end"):
                     nchk += 1
                     want = (f"{A} + {O}", f"{O} + {A}") if kw.arg.endswith("start") else (f"{B} + {O}", f"{O} + {B}")
-                    if norm(kw.value) not in want:
+                    if L.text(kw.value, c) not in want:
                         bad.append(f"{kw.arg}={norm(kw.value)}")
         ctx.ob("R-C19-5", "find.extract_pincited_reference_citations/offsets-rebased", not bad and nchk >= 6,
                f"every offset of a reference found in the slice is rebased by the slice origin ({nchk} offsets; not rebased: {bad})", node=fn, mod=fm)
